@@ -28,6 +28,7 @@ def make(kind, step, per_time):
 
 class C12(Property):
     id = "C12"
+    anchors = ('finam.adapters.time_integration:AvgOverTime._interpolate', 'finam.adapters.time_integration:SumOverTime._interpolate', 'finam.adapters.time_integration:SumOverTime._get_info')
     technique = "reference-model monitor: exact piecewise integrals (Fraction) of the linear/step interpolant vs pulls behind the real Avg/Sum adapters; two-partition conservation differential on the real code"
     rule = (
         "per case avg or sum (per-time or absolute), linear or step position in {0,.25,.5,.75,1,random}, a publication series with irregular "
